@@ -60,9 +60,17 @@ def standard_run(mod, tier, seed):
     rnd.shuffle(samples)
 
     def confirm(v):
-        ch, ctx = pool.replay(mod.body, v["shard"], v["choices"], tier, seed)
-        return any(x.sigkey() == json.dumps(v["sig"], sort_keys=True, default=str)
-                   for x in ctx.violations)
+        if pool.replay_isolated(mod.body, v, tier, seed):
+            return True
+        # not reproducible in isolation: replay the reporting worker's whole execution history in a fresh
+        # process (deterministic); if it shows up again the code under test keeps state between calls
+        if v.get("shard_index") is not None and pool.replay_with_history(mod.body, shards, v, tier, seed, max_dev):
+            v["needs_history"] = True
+            v["detail"] = dict(v.get("detail") or {}, order_dependent=(
+                "does not reproduce as a single execution; reproduces when the %d shard(s) explored earlier by the same "
+                "worker process are executed first (state kept between independent calls)" % len(v.get("worker_history") or [])))
+            return True
+        return False
 
     exhaustive = max_dev is None and not total.counters.get("cap_hit")
     extra.update(
@@ -87,6 +95,15 @@ def standard_replay(mod, path, tier, seed):
 
     with open(path) as fh:
         v = json.load(fh)
+    if v.get("needs_history"):
+        ok = pool.replay_with_history(mod.body, mod.shards(v.get("tier", tier)), v, v.get("tier", tier), seed,
+                                      getattr(mod, "max_dev", lambda t: None)(v.get("tier", tier)))
+        print("order-dependent violation: replayed %d earlier shard(s) + shard %r in a fresh process -> %s"
+              % (len(v.get("worker_history") or []), v.get("shard_index"), "reproduced" if ok else "NOT reproduced"))
+        if ok:
+            print("VIOLATION property=%s replay=%s" % (mod.ID, path))
+            print("   kind=%s sig=%s" % (v["kind"], json.dumps(v["sig"], sort_keys=True)))
+        return 1 if ok else 0
     ch, ctx = pool.replay(mod.body, v["shard"], v["choices"], tier, seed)
     print("replayed shard=%r choices=%r" % (v["shard"], v["choices"]))
     for lab, c in zip(ch.labels, ch.choices):
